@@ -22,3 +22,12 @@ package routingtable
 //@ contract (*ClientManager).GetOptions
 //@ contract (*ClientManager).RegisterWithOptions
 //@ contract (*ClientManager).Unregister
+
+// Clients of a routing table do not write to the paths handed to them (they copy
+// before rewriting; property C13 states this for the BGP clients). This is a
+// contract of the interface methods: it is assumed of every implementation, so
+// that a caller's verification does not depend on which implementations happen
+// to be loaded.
+//@ contract RouteTableClient.AddPath, RouteTableClient.AddPathInitialDump, RouteTableClient.RemovePath, RouteTableClient.ReplacePath
+//@   props C06 C12 C20
+//@   preserves type route.Path, route.BGPPath, route.BGPPathA
